@@ -392,7 +392,7 @@ func (d *pathDomain) Transfer(n *Node, s Store) []Store {
 		}
 		k := "P:" + varKey(v)
 		switch {
-		case isErrorType(v.Type()):
+		case isErrorType(v.Type()) || isNilableLocalType(v.Type()):
 			val := "?"
 			switch {
 			case tuple:
@@ -536,8 +536,11 @@ func (d *pathDomain) Refine(e *Edge, s Store) (Store, bool) {
 	switch at.Kind {
 	case "nil":
 		v, ok := identObj(info, at.X).(*types.Var)
-		if !ok || !isErrorType(v.Type()) || v.IsField() {
+		if !ok || !(isErrorType(v.Type()) || isNilableLocalType(v.Type())) || v.IsField() {
 			return s, true
+		}
+		if v.Parent() == nil || (v.Pkg() != nil && v.Parent() == v.Pkg().Scope()) {
+			return s, true // package-level variables can change behind our back
 		}
 		k := "P:" + varKey(v)
 		cur := s.Get(k)
@@ -840,4 +843,15 @@ func (p *Prog) derefField(f *Func, se *ast.SelectorExpr) ast.Expr {
 		return rhs
 	}
 	return nil
+}
+
+// isNilableLocalType: pointers, maps, slices, channels and functions - a local
+// of such a type declared without a value is nil, one bound to &x / a literal
+// is not, and a nil test on it refines (or contradicts) that.
+func isNilableLocalType(t types.Type) bool {
+	switch t.Underlying().(type) {
+	case *types.Pointer, *types.Map, *types.Slice, *types.Chan, *types.Signature:
+		return true
+	}
+	return false
 }
